@@ -1,0 +1,9 @@
+//go:build !verif
+
+package nodes
+
+import (
+	. "github.com/cube2222/octosql/execution"
+)
+
+func verifJoinEvent(ctx ExecutionContext, side int, closed, metadata bool) {}
